@@ -10,7 +10,7 @@ import (
 
 var asciiPlain = []rune("abcdefghijklmnopqrstuvwxyzABCDEFGHIJKLMNOPQRSTUVWXYZ0123456789  ")
 var hostile = []rune{'"', '\\', '(', ')', '@', '.', ',', '\'', '\n', '\t', '\r', '[', ']', '{', '}', ':', ';', '`', '%', '$', '#', '&', '|', '/', '*', '+', '-', '=', '!', '~', '<', '>', '^', '?', '_'}
-var unicodeMix = []rune{'é', 'ß', 'İ', 'ı', 'ǅ', 'Σ', 'ς', 'я', 'ض', '中', '日', '한', '\u0301', '\u200b', '\u00a0', '\u2003', '😀', '𝔘', '\U0001F1FA', 'ﬁ', '٣', '५', '²', '½', '\u00ad', '\ufeff', '\u202e'}
+var unicodeMix = []rune{'é', 'ß', 'İ', 'ı', 'ǅ', 'Σ', 'ς', 'я', 'ض', '中', '日', '한', '\u0301', '\u200b', '\u00a0', '\u2003', '😀', '𝔘', '\U0001F1FA', 'ﬁ', '٣', '५', '²', '½', '\u00ad', '\ufeff', '\u202e', '\ufffd', '\ufffd'}
 var controls = []rune{'\x01', '\x07', '\x08', '\x0b', '\x0c', '\x1b', '\x1f', '\x7f', '\u0085'}
 var words = []string{"AND", "OR", "and", "or", "true", "false", "null", "name", "=", "!=", "~", "<=", ">=", "<", ">", "@(", "@@", "@contact", "@fields.age", "\\\"", "\\\\", "\\n", "\\u00e9", "\\x", "\"\"", "\" OR \"", "1 / 0", "10", "-1", "1.5", "2020-01-01", "31/12/1999", "12:30", "+12065551212", "tel:+250788123456", "foo@bar.com", "yes", "no", "  ", "\\"}
 
@@ -28,7 +28,7 @@ func Rune(t *rapid.T) rune {
 		return rapid.SampledFrom(controls).Draw(t, "r")
 	default:
 		r := rapid.Rune().Draw(t, "r")
-		if r == 0 || r == '�' {
+		if r == 0 {
 			return 'x'
 		}
 		return r
